@@ -17,9 +17,11 @@ def lay(rng, **force):
     return L
 
 # ---------------------------------------------------------------- package.json
-NPM_SECTIONS = ["dependencies", "devDependencies", "peerDependencies", "overrides"]
+NPM_SECTIONS = ["dependencies", "devDependencies", "peerDependencies", "optionalDependencies", "overrides"]
 NPM_NONREG = ["workspace:*", "workspace:^", "file:../local", "link:../linked", "git+https://github.com/a/b.git#v1",
-              "github:user/repo", "https://example.com/x.tgz", "http://example.com/x.tgz", "catalog:", "catalog:default"]
+              "github:user/repo", "https://example.com/x.tgz", "http://example.com/x.tgz", "catalog:", "catalog:default",
+              # hosted git shorthands and local paths (no range and no dist-tag contains a slash)
+              "user/repo", "user/repo#semver:^1.0.0", "gitlab:user/repo", "bitbucket:user/repo", "gist:0123abcd", "./local.tgz", "../dir", "~/dir", "/abs/dir"]
 
 def package_json(deps, L, extras=()):
     """deps: list of (section, key, value, declared or None)"""
